@@ -92,4 +92,9 @@ theorem accept_path_anchors :
     Facts.acc_upgrade_panic_is_rejection = true ∧ Facts.acc_upgrade_plain_error_returns = false ∧
     Facts.acc_routine_continues_on_rejected = true ∧ Facts.acc_routine_panics_on_other = true := by decide
 
+/-- both sends of the block pool to channels only `poolRoutine` drains are guarded by `IsRunning`
+(model: `chanSend true`) -/
+theorem pool_sends_guarded :
+    Facts.bc_sendError_guarded = "!pool.IsRunning()" ∧ Facts.bc_sendRequest_guarded = "!pool.IsRunning()" := by decide
+
 end Tmv.Expect.C17
